@@ -529,6 +529,14 @@ impl Sim {
                         }
                     }
                     Expect::IterPanic => self.stats.fault("iter_panic_after_j"),
+                    Expect::Unwind { mismatch, iter } => {
+                        if *mismatch {
+                            self.stats.fault("batch_unwound_mid");
+                        }
+                        if *iter {
+                            self.stats.fault("iter_panic_after_j");
+                        }
+                    }
                 }
                 let matches = match (expect, got) {
                     (Expect::Ok, Got::Ok) => true,
@@ -536,6 +544,8 @@ impl Sim {
                     // the property does not constrain the panic message, only that it unwinds
                     (Expect::MismatchPanic(_), Got::Panic(_)) => true,
                     (Expect::IterPanic, Got::IterPanic) => true,
+                    (Expect::Unwind { mismatch: true, .. }, Got::Panic(_)) => true,
+                    (Expect::Unwind { iter: true, .. }, Got::IterPanic) => true,
                     _ => false,
                 };
                 if check_c10 {
@@ -1097,16 +1107,8 @@ fn build_values(i: &sea_query::InsertStatement, b: Backend) -> Vec<String> {
 }
 
 fn cell_params(e: &ExprSpec, b: Backend) -> Option<Vec<String>> {
-    let mut cx = Ctx::oracle();
-    let expr = guarded(|| mat_expr(e, &mut cx)).ok()?;
-    let mut q = SelectStatement::new();
-    q.expr(expr);
-    guarded(|| match b {
-        Backend::Mysql => values_dbg(&q.build(sea_query::MysqlQueryBuilder).1),
-        Backend::Pg => values_dbg(&q.build(sea_query::PostgresQueryBuilder).1),
-        Backend::Sqlite => values_dbg(&q.build(sea_query::SqliteQueryBuilder).1),
-    })
-    .ok()
+    let i = one_cell_insert(e)?;
+    guarded(|| build_values(&i, b)).ok()
 }
 
 pub fn ctor_refs(c: &Ctor) -> Vec<(HandleId, SubMode)> {
@@ -1121,6 +1123,9 @@ pub fn ctor_refs(c: &Ctor) -> Vec<(HandleId, SubMode)> {
 
 #[derive(Clone, Debug, PartialEq)]
 pub enum Expect {
+    /// a batch with at least one failing event: it must unwind, through any of the listed kinds
+    /// (the order in which a batch evaluates its rows and iterators is not fixed by the property)
+    Unwind { mismatch: bool, iter: bool },
     Ok,
     /// Debug text of the returned error
     Err(String),
@@ -1132,6 +1137,7 @@ pub enum Expect {
 impl Expect {
     pub fn style(&self) -> &'static str {
         match self {
+            Expect::Unwind { .. } => "unwound",
             Expect::Ok => "accepted",
             Expect::Err(_) => "err",
             Expect::MismatchPanic(_) => "unwound",
@@ -1197,31 +1203,43 @@ pub fn predict_insert(log: &Log, op: &Op, sel_width: Option<usize>) -> InsPred {
         }
         Op::Ins(InsOp::ValuesFromPanic(rows, ob)) => {
             let mut acc = Vec::new();
-            let mut expect = Expect::Ok;
+            let mut first_fail: Option<usize> = None;
+            let (mut mism, mut iterp) = (false, false);
             let mut width = cols;
+            let outer_panic = match ob {
+                IterB::PanicAfter(j) if (*j as usize) <= rows.len() => Some(*j as usize),
+                _ => None,
+            };
             for (i, (row, b)) in rows.iter().enumerate() {
-                if let IterB::PanicAfter(j) = ob {
-                    if *j as usize == i {
-                        expect = Expect::IterPanic;
-                        break;
-                    }
+                if outer_panic == Some(i) {
+                    break; // rows from here on are never yielded
                 }
                 match row_event(cols, row, *b) {
-                    Ok(()) => acc.push((row.clone(), IterB::Honest)),
+                    Ok(()) => {
+                        if first_fail.is_none() {
+                            acc.push((row.clone(), IterB::Honest));
+                        }
+                    }
                     Err(e) => {
-                        expect = e;
-                        width = row.len();
-                        break;
+                        if first_fail.is_none() {
+                            first_fail = Some(i);
+                            width = row.len();
+                        }
+                        match e {
+                            Expect::IterPanic => iterp = true,
+                            _ => mism = true,
+                        }
                     }
                 }
             }
-            if expect == Expect::Ok {
-                if let IterB::PanicAfter(j) = ob {
-                    if *j as usize == rows.len() {
-                        expect = Expect::IterPanic;
-                    }
-                }
+            if outer_panic.is_some() {
+                iterp = true;
             }
+            let expect = if mism || iterp {
+                Expect::Unwind { mismatch: mism, iter: iterp }
+            } else {
+                Expect::Ok
+            };
             let accepted = if acc.is_empty() && expect != Expect::Ok {
                 None
             } else {
@@ -1265,13 +1283,35 @@ fn sel_to_string(q: &SelectStatement, b: Backend) -> Result<String, String> {
     })
 }
 
-fn cell_text(e: &ExprSpec, b: Backend) -> Option<String> {
+/// a one-column, one-row INSERT holding just this cell: the cell is spelled by the same code path
+/// (the VALUES renderer of the tree under test) as inside the statement being judged, so the
+/// oracle composes *cells* into rows and rows into lists without owning any expression rendering
+fn one_cell_insert(e: &ExprSpec) -> Option<sea_query::InsertStatement> {
     let mut cx = Ctx::oracle();
     let expr = guarded(|| mat_expr(e, &mut cx)).ok()?;
-    let mut q = SelectStatement::new();
-    q.expr(expr);
-    let t = sel_to_string(&q, b).ok()?;
-    t.strip_prefix("SELECT ").map(|s| s.to_string())
+    let mut i = sea_query::InsertStatement::new();
+    i.columns([crate::seams::SimIden {
+        name: "c".into(),
+        live: false,
+    }]);
+    guarded(move || {
+        i.values_panic([expr]);
+        i
+    })
+    .ok()
+}
+
+fn cell_text(e: &ExprSpec, b: Backend) -> Option<String> {
+    let i = one_cell_insert(e)?;
+    let t = guarded(|| match b {
+        Backend::Mysql => i.to_string(sea_query::MysqlQueryBuilder),
+        Backend::Pg => i.to_string(sea_query::PostgresQueryBuilder),
+        Backend::Sqlite => i.to_string(sea_query::SqliteQueryBuilder),
+    })
+    .ok()?;
+    let k = t.find(" VALUES (")?;
+    let inner = &t[k + " VALUES (".len()..];
+    inner.strip_suffix(')').map(|s| s.to_string())
 }
 
 pub fn expected_insert_segment(m: &InsModel, b: Backend) -> Option<String> {
